@@ -142,7 +142,7 @@ func (f *Divide) Call(s *slip.Scope, args slip.List, depth int) (quot slip.Objec
 			var zz big.Int
 			q, r := zz.QuoRem((*big.Int)(quot.(*slip.Bignum)), (*big.Int)(ta), &z)
 			if r.Sign() == 0 {
-				quot = (*slip.Bignum)(q)
+				quot = slip.IntegerFromBig(q)
 			} else {
 				var zr big.Rat
 				quot = (*slip.Ratio)(zr.SetFrac((*big.Int)(quot.(*slip.Bignum)), (*big.Int)(ta)))
